@@ -1185,3 +1185,27 @@ func (g *EG) TraversalExpr() ast.Node {
 	}
 	return n
 }
+
+// SplatHeavy draws an expression built around splat operators (nested splats, splats
+// inside for expressions, conditionals and tuples), for the concurrency check.
+func (g *EG) SplatHeavy() ast.Node {
+	switch g.intn(5, "splatheavy") {
+	case 0:
+		return g.splat(1)
+	case 1:
+		return ast.Tuple{Elems: []ast.Node{g.splat(1), g.splat(1)}}
+	case 2:
+		coll, kty, vty := g.iterable(1)
+		f := ast.For{Coll: coll, ValVar: "it"}
+		g.withBound([]string{"", "it"}, []cty.Type{kty, vty}, func() {
+			f.Val = ast.Tuple{Elems: []ast.Node{g.splat(2), ast.Splat{Src: ast.Var{Name: "it"}, Full: g.chance(2, "full")}}}
+		})
+		return f
+	case 3:
+		return ast.Cond{P: g.gen(cty.Bool, 2), T: g.splat(1), F: g.splat(1)}
+	case 4:
+		return ast.Splat{Src: g.splat(1), Full: true}
+	default:
+		return ast.Index{Coll: g.splat(1), Key: ast.Num{Text: "0"}}
+	}
+}
